@@ -180,7 +180,7 @@ _HCOBS_NOTE = ("Trusted: Lean kernel + 3 standard axioms; the correspondence har
 
 SPECS["C01"] = dict(
     title="HCOBS round trip: decoding an encoded message returns the original bytes",
-    lean_modules=["Woodpile.Props.C01", "Woodpile.Props.C01W"],
+    lean_modules=["Woodpile.Props.C01", "Woodpile.Props.C01W", "Woodpile.Proofs.HcobsZerosImpl"],
     theorems=[
         "Woodpile.Props.C01.enc_impl_refines_spec",
         "Woodpile.Props.C01.enc_split_independent",
@@ -205,6 +205,10 @@ SPECS["C01"] = dict(
         "Woodpile.Props.C01W.world_roundtrip_partial",
         "Woodpile.Props.C01W.dec_world_output_partial",
         "Woodpile.Props.C01W.world_roundtrip_both_partial",
+        "Woodpile.Hcobs.Zeros.encode_zeros",
+        "Woodpile.Hcobs.Zeros.summarize_encode_zeros",
+        "Woodpile.Hcobs.Zeros.zenc_output",
+        "Woodpile.Hcobs.Zeros.zdec_output",
     ],
     families=[dict(name="hcobs_enc", quick=8000, thorough=200000, search=40000), dict(name="hcobs_dec", quick=8000, thorough=200000, search=40000)],
     vtags=["C01"],
@@ -216,7 +220,11 @@ SPECS["C01"] = dict(
                 "(production limits through the public API, tiny limits through hook H2) and the compiled models on the same enumerated + "
                 "random op sequences (pieces, methods b/c/a/r, drains by slices/bytes/Read) and diffing sizes, drained bytes, exposed "
                 "prefix and final bytes after every call; a direct oracle feeds every encoder output back through the real Decoder "
-                "(one call, and a random segmentation with mixed methods and drains) and compares with the input."),
+                "(one call, and a random segmentation with mixed methods and drains) and compares with the input. "
+                "Machine-integer range: the ops zenc / zdec run ONE encode / decode call on a piece of n zero bytes, n up to 2^32 + 100 in the "
+                "thorough tier (lazily mapped zero buffer, outputs inspected slice by slice, every call under a 120 s watchdog; 3 MiB in the quick "
+                "tier); the model replays them through the closed form of Spec.encode on zeros (Zeros.zeroSummary: size, chunks, last chunk, "
+                "FNV-1a of the header bytes), proved equal to the summary of Spec.encode p (replicate n 0) for every n."),
     level_note=_HCOBS_NOTE,
     trusted_base=_HCOBS_TB,
     assumptions=_HCOBS_ASSUME,
@@ -272,7 +280,7 @@ SPECS["C02"]["level_text"] += (' Props/C02W restates no-stuff, split independenc
 
 SPECS["C07"] = dict(
     title="HCOBS wire format: canonical encoder, decoder accepts exactly the format",
-    lean_modules=["Woodpile.Props.C07", "Woodpile.Props.C01"],
+    lean_modules=["Woodpile.Props.C07", "Woodpile.Props.C01", "Woodpile.Proofs.HcobsZerosImpl"],
     theorems=[
         "Woodpile.Props.C07.wire_consts",
         "Woodpile.Props.C07.wire_consts_model",
@@ -300,6 +308,10 @@ SPECS["C07"] = dict(
         "Woodpile.Props.C01.dec_refines_spec_drained",
         "Woodpile.Props.C01.roundtrip_given_spec",
         "Woodpile.Props.C01.roundtrip",
+        "Woodpile.Hcobs.Zeros.encode_zeros",
+        "Woodpile.Hcobs.Zeros.summarize_encode_zeros",
+        "Woodpile.Hcobs.Zeros.zenc_output",
+        "Woodpile.Hcobs.Zeros.zdec_output",
     ],
     families=[dict(name="hcobs_enc", quick=8000, thorough=200000, search=40000), dict(name="hcobs_dec", quick=8000, thorough=200000, search=40000)],
     vtags=["C07"],
@@ -311,7 +323,11 @@ SPECS["C07"] = dict(
                 "Tied to /repo by the hcobs_enc and hcobs_dec correspondence runs (valid encodings from the real encoder, truncation at "
                 "every position, out-of-radix bytes in every header position, over-long lengths, garbage; verdict, error variant and payload, "
                 "bytes); the direct oracle compares the real encoder and decoder with a reference codec written from the format "
-                "description with literal production constants, re-decodes every input in one call, and reports panics."),
+                "description with literal production constants, re-decodes every input in one call, and reports panics. "
+                "Machine-integer range: zenc / zdec (one call on n zero bytes, n up to 2^32 + 100 in the thorough tier, 3 MiB in the quick tier): "
+                "every header of the real output is checked at its analytic offset against literal radix-253 digits, the decoder must return "
+                "exactly n zero bytes from one >= 4 GiB slice reached mid-chunk, and a call that does not return within 120 s is reported; the "
+                "model side is the closed form Zeros.zeroSummary, proved equal to the summary of Spec.encode p (replicate n 0) for every n."),
     level_note=_HCOBS_NOTE,
     trusted_base=_HCOBS_TB,
     assumptions=_HCOBS_ASSUME,
